@@ -78,6 +78,22 @@ def run(tier, seed):
             b = rp_h + bytes([fl]) + (7).to_bytes(4, "big") + aag + cid_len.to_bytes(2, "big") + cid + kb + (eb or b"")
             assert pat in b[55 + cid_len + 1:]
             run_one(b, "bad-eddsa-pattern-elsewhere", {"rp": rp_h, "flags": fl, "count": 7, "att": (aag, cid, kb), "ext": eb})
+    # histories: a value marked shareable (tag 28) in one input must not be resolvable by a shared reference (tag 29) in a LATER input
+    hdr_ed = bytes(32) + b"\x81" + b"\x00\x00\x00\x01"
+    hdr_at = bytes(32) + b"\x41" + b"\x00\x00\x00\x01" + bytes(16) + b"\x00\x02" + b"id"
+    ref_inputs = [hdr_ed + b"\xd8\x1d\x00", hdr_ed + b"\xa1\x61a\xd8\x1d\x00", hdr_at + b"\xa5\x01\x02\x03\x26\x20\x01\x21\xd8\x1d\x00\x22\xd8\x1d\x00", hdr_ed + b"\xd8\x1d\x01"]
+    share_inputs = [hdr_ed + b"\xd8\x1c\x58\x28" + bytes(40), hdr_ed + b"\xd8\x1c\xa1\x6bcredProtect\x02", hdr_ed + b"\xa1\x61a\xd8\x1c\x58\x20" + bytes(32),
+                    hdr_at + b"\xa5\x01\x02\x03\x26\x20\x01\x21\xd8\x1c\x58\x20" + bytes(32) + b"\x22\x58\x20" + bytes(32)]
+    before = [impl.parse_authenticator_data(b) for b in ref_inputs]
+    for sh in share_inputs:
+        impl.parse_authenticator_data(sh)
+        after = [impl.parse_authenticator_data(b) for b in ref_inputs]
+        chk.evals += len(ref_inputs) + 1
+        for b, x, y in zip(ref_inputs, before, after):
+            if x != y:
+                chk.violation("parse_authenticator_data gives another result for the same bytes after an unrelated earlier call (decoder state carried over)", "authdata-history shared-reference",
+                              {"entry": "parse_authenticator_data", "history": [sh.hex(), b.hex()], "first_outcome": x[:120], "later_outcome": y[:120]})
+        chk.seen(("history", sh[:48]))
     # hostile CBOR in the COSE-key slot and in the extension slot (exceptions outside cbor2's own hierarchy, recursion)
     for item in cborgen.hostile_cbor():
         hdr_at = rng.randbytes(32) + b"\x41" + b"\x00\x00\x00\x01" + rng.randbytes(16) + b"\x00\x02" + b"id"
